@@ -27,7 +27,7 @@ RULE = (
 )
 ASSUMPTIONS = ["a perturbed column keeps its declared type (kind) so that the pipeline stays well-typed"]
 
-N = {"quick": 1200, "thorough": 30000}
+N = {"quick": 1200, "thorough": 50000}
 NB = {"quick": 16, "thorough": 64}
 
 
